@@ -64,12 +64,12 @@ Qed.
 Section SchedProofs.
   Variable chk : gst -> bool.
   Variable period : Z.
-  Theorem sched_reach : forall fuel w s qs ord done bad,
+  Theorem sched_reach : forall fuel w s qs ord done bad acc,
     qs_ok qs = true -> reach s -> others_idle (map fst qs) s ->
-    let s' := fst (fst (fst (fst (sched chk period fuel w s qs ord done bad)))) in
+    let s' := fst (fst (fst (fst (fst (sched chk period fuel w s qs ord done bad acc))))) in
     reach s' /\ others_idle (map fst qs) s'.
   Proof.
-    induction fuel as [|f IH]; intros w s qs ord done bad Q R O; cbn [sched]; [split; assumption|].
+    induction fuel as [|f IH]; intros w s qs ord done bad acc Q R O; cbn [sched]; [split; assumption|].
     destruct ord as [|u r]; [split; assumption|].
     destruct (pick s qs (u :: r) [] w) as [[t s1]|] eqn:P; [|split; assumption].
     destruct (pick_step s qs Q _ _ _ _ _ P) as (e & St & I). destruct (pop_q_ok t qs Q) as (Q' & M).
@@ -79,7 +79,8 @@ Section SchedProofs.
     { intros v Nv. destruct (O v Nv) as (A & B & C). assert (Ne : v <> t) by (intros ->; contradiction).
       destruct (gstep_others _ _ _ _ v Hs Ne) as (A' & B' & C'). rewrite A', B'. auto. }
     specialize (IH w s1 (pop_q t qs) (remove_first t (u :: r)) (done + 1)
-                  (if bad =? -1 then (if (done + 1) mod period =? 0 then (if chk s1 then bad else done + 1) else bad) else bad) Q' R1).
+                  (if bad =? -1 then (if (done + 1) mod period =? 0 then (if chk s1 then bad else done + 1) else bad) else bad)
+                  (observe s t (Z.of_nat (length (lookup t qs))) acc) Q' R1).
     rewrite M in IH. apply IH. exact O1.
   Qed.
 End SchedProofs.
@@ -91,7 +92,7 @@ Proof. intros u _. cbn. repeat split. discriminate. Qed.
    global model, whatever queues and order it was given *)
 Corollary replay_reach chk period qs ord :
   qs_ok qs = true ->
-  let s' := fst (fst (fst (fst (sched chk period (S (length ord)) (length ord) init_state qs ord 0 (-1))))) in
+  let s' := fst (fst (fst (fst (fst (sched chk period (S (length ord)) (length ord) init_state qs ord 0 (-1) ([], [])))))) in
   reach s' /\ others_idle (map fst qs) s'.
 Proof. intros Q. apply sched_reach; [exact Q|apply reach_init; reflexivity|apply others_idle_init]. Qed.
 
@@ -237,6 +238,6 @@ Qed.
 (* ... in particular on every state the replay passes through and reports *)
 Corollary replay_inv_b chk period qs ord :
   qs_ok qs = true ->
-  let s' := fst (fst (fst (fst (sched chk period (S (length ord)) (length ord) init_state qs ord 0 (-1))))) in
+  let s' := fst (fst (fst (fst (fst (sched chk period (S (length ord)) (length ord) init_state qs ord 0 (-1) ([], [])))))) in
   gfull s' < 4294967296 -> inv_b (map fst qs) s' = true.
 Proof. intros Q s' L. destruct (replay_reach chk period qs ord Q) as (R & O). apply inv_b_true; assumption. Qed.
